@@ -53,6 +53,8 @@ class Resolver(object):
         self.scopes = []
         self.has_annotation_scopes = False
         self.class_flow = {}    # id(Name node) -> 'before' | 'after' | 'ambiguous'
+        self.fallback_occ = set()
+        self.ambiguous_class_loads = 0
         self.module = self.new_scope('module', tree, None)
         self.visit_body(tree.body, self.module)
         self.keys = {}
@@ -393,9 +395,13 @@ class Resolver(object):
                     flow = self.class_flow.get(id(node), 'ambiguous')
                     fallback = self.module_key(name)
                     if flow == 'before':
+                        # definitely read before any store in the class body: LOAD_NAME falls through to globals/builtins
                         keys = [fallback]
+                        self.fallback_occ.add((id(node), slot))
                     elif flow == 'ambiguous':
-                        keys = [key, fallback]
+                        # conditional stores, loops, del: the order cannot be decided statically. Not guessed: the occurrence
+                        # is tied to the class binding only and its fall-through target is excluded from assertions (counted).
+                        self.ambiguous_class_loads += 1
                 self.keys[(id(node), slot)] = keys
 
     def key_of(self, node, slot):
@@ -497,22 +503,27 @@ def symtable_check(src):
             # at module level local and global are the same namespace (symtable reports walrus-bound names as global only)
             agree += 1
             continue
-        used = set()
-        for x in la:
-            # several scopes can share (kind, name, line): match each of ours with any unused symtable scope that agrees on our names
-            found = None
-            worst = None
-            for j, y in enumerate(lb):
-                if j in used:
-                    continue
-                bad = [(n, sorted(x.get(n, ())), sorted(y.get(n, ()))) for n in x if x.get(n) != y.get(n)]
-                if not bad:
-                    found = j
+        def compatible(x, y):
+            return all(x.get(n) == y.get(n) for n in x)
+
+        def match(i, used):
+            if i == len(la):
+                return True
+            for j in range(len(lb)):
+                if j not in used and compatible(la[i], lb[j]):
+                    used.add(j)
+                    if match(i + 1, used):
+                        return True
+                    used.discard(j)
+            return False
+
+        if match(0, set()):
+            agree += len(la)
+        else:
+            worst = []
+            for x in la:
+                if not any(compatible(x, y) for y in lb):
+                    worst = [(n, sorted(x.get(n, ())), [sorted(y.get(n, ())) for y in lb][:3]) for n in x][:4]
                     break
-                worst = bad
-            if found is None:
-                dis.append(('classification', k, (worst or [])[:4]))
-            else:
-                used.add(found)
-                agree += 1
+            dis.append(('classification', k, worst))
     return agree, dis
